@@ -113,6 +113,7 @@ func init() {
 			{Name: "C04.R2", Run: func(c *Ctx) { ruleWindow(c, "C04.R2") }},
 			{Name: "C04.R3", Run: func(c *Ctx) { ruleAmountTable(c, "C04.R3") }},
 			{Name: "C04.R4", Run: func(c *Ctx) { rulePlumbing(c, "C04.R4") }},
+			{Name: "C04.R5", Run: func(c *Ctx) { ruleWhoWritesMatch(c, "C04.R5", false) }},
 		},
 	})
 	register(&Property{
@@ -164,7 +165,7 @@ func init() {
 	})
 	register(&Property{
 		ID: "C09",
-		Explanation: "Decides, for everything reachable from Run/RunFiles, an inventory of panic-capable constructs each discharged by a named rule: (R1) explicit panics - fall-out of complete type switches / exhaustive enum switches, the evaluator's SHOULDN'T GET HERE panics by R2, or a frozen trusted table (VM invariants, operating-system failures); (R2) every operand-type cell the checker accepts has a non-panicking evaluator leaf; (R3) the flow-insensitive checker binds variable types monotonically; (R4) integer division has a tested divisor; (R5) instruction fetch is dominated by a program-counter bound test; (R6) reads at end of input; (R7) type assertions; (R8) results of Peek/Pop/Index are tested before dereference; (R9) readers are closed by the function that opened them and do not outlive their iteration; (R10) the VM-invariant panics of the trusted table rest on checkpoints being isolated snapshots: Copy gives every stack and map of a saved state its own storage (same rule as C02.R1); (R11) every Optional.GetValue is dominated by HasValue() on the same optional. " +
+		Explanation: "Decides, for everything reachable from Run/RunFiles, an inventory of panic-capable constructs each discharged by a named rule: (R1) explicit panics - fall-out of complete type switches / exhaustive enum switches, the evaluator's SHOULDN'T GET HERE panics by R2, or a frozen trusted table (VM invariants, operating-system failures); (R2) every operand-type cell the checker accepts has a non-panicking evaluator leaf; (R3) the flow-insensitive checker binds variable types monotonically; (R4) integer division has a tested divisor; (R5) instruction fetch is dominated by a program-counter bound test; (R6) reads at end of input; (R7) type assertions; (R8) results of Peek/Pop/Index are tested before dereference; (R9) readers are closed by the function that opened them and do not outlive their iteration; (R10) the VM-invariant panics of the trusted table rest on checkpoints being isolated snapshots: Copy gives every stack and map of a saved state its own storage (same rule as C02.R1); (R11) every Optional.GetValue is dominated by HasValue() on the same optional; (R12) the scan discipline on which the trusted `byte at the scan offset exists` panic rests. " +
 			"Does NOT decide index safety that depends on VM invariants (branch lists non-empty, capture offsets inside the match, jump targets in range) nor process loops that never end.",
 		Assumptions: commonAssumptions,
 		Rules: []RuleFn{
@@ -203,7 +204,7 @@ func init() {
 					"msg:\"Loop stack is empty :(\"": "loop stack non-empty (VM invariant)",
 					"msg:\"UHOH BAD INSTRUCTIONS I TRIED RESOLVING A VARIABLE THAT I WASN'T EXPECTING\"": "variable records are pushed and popped by bracketed StartVarDec/EndVarDec instructions (VM invariant)",
 					"msg:\"BAD CALL STACK :(\"":                               "call stack non-empty inside a subroutine (VM invariant)",
-					"msg:\"WOW THAT IS NOT GOOD :(\"":                         "the byte at the scan offset exists because the scan loop leaves when the offset reaches reader.Size() (value-level)",
+					"msg:\"WOW THAT IS NOT GOOD :(\"":                         "the byte at the scan offset exists because the scan loop reads exactly one byte at an offset below reader.Size() and leaves when the offset reaches it (scan discipline, C09.R12)",
 					"msg:\"Attempting to read value from empty optional :(\"": "every call of GetValue is dominated by HasValue() on the same optional (C09.R11)",
 				}, 12, special)
 			}},
@@ -212,7 +213,7 @@ func init() {
 			{Name: "C09.R4", Run: func(c *Ctx) { ruleDivision(c, "C09.R4") }},
 			{Name: "C09.R5", Run: func(c *Ctx) { ruleInstructionFetch(c, "C09.R5") }},
 			{Name: "C09.R6", Run: func(c *Ctx) { ruleEOFNotAnError(c, "C09.R6") }},
-			{Name: "C09.R7", Run: func(c *Ctx) { ruleTypeAssertions(c, "C09.R7", []string{"engine", "files"}, 1) }},
+			{Name: "C09.R7", Run: func(c *Ctx) { ruleTypeAssertions(c, "C09.R7", []string{"engine", "files"}, 0) }},
 			{Name: "C09.R8", Run: func(c *Ctx) {
 				ruleStackAPI(c, "C09.R8", map[string]string{
 					"(*engine.SearchEngineState).ENDVAR": "variable records are pushed and popped by bracketed StartVarDec/EndVarDec instructions (VM invariant)",
@@ -226,6 +227,7 @@ func init() {
 			{Name: "C09.R9", Run: func(c *Ctx) { ruleReaderLifetime(c, "C09.R9") }},
 			{Name: "C09.R10", Run: func(c *Ctx) { ruleSnapshotIsolation(c, "C09.R10") }},
 			{Name: "C09.R11", Run: func(c *Ctx) { ruleOptionalGuard(c, "C09.R11") }},
+			{Name: "C09.R12", Run: func(c *Ctx) { ruleScanDiscipline(c, "C09.R12") }},
 		},
 	})
 	register(&Property{
@@ -332,7 +334,7 @@ func init() {
 			"Does NOT decide encoding/json itself nor round-trip equality of values.",
 		Assumptions: append([]string{"encoding/json produces valid JSON for JSON-safe Go values and escapes arbitrary text"}, commonAssumptions...),
 		Rules: []RuleFn{
-			{Name: "C17.R1", Run: func(c *Ctx) { ruleTypeAssertions(c, "C17.R1", []string{"engine", "ds"}, 1) }},
+			{Name: "C17.R1", Run: func(c *Ctx) { ruleTypeAssertions(c, "C17.R1", []string{"engine", "ds"}, 0) }},
 			{Name: "C17.R2", Run: func(c *Ctx) { ruleJSONShape(c, "C17.R2") }},
 			{Name: "C17.R3", Run: func(c *Ctx) { ruleJSONMarshalSafe(c, "C17.R3") }},
 			{Name: "C17.R4", Run: func(c *Ctx) { ruleJSONRenderings(c, "C17.R4") }},
